@@ -449,6 +449,7 @@ def run_case(case):
         elif e2[0] in ('finish', 'preFail') and e2[1] == raised_i:
             done_raised = 1
     res['max_ahead'] = worst
+    res['ahead_slack'] = ['fifo_stream / parmap: pulled - handed, relative to capacity (theorem: <= 3, attained)', worst - cap]
     if worst > cap + 3:
         mon.append(dict(prop='C08', rule='lookahead', detail=f'{worst} > cap+3 = {cap + 3}'))
     if state['max_running'] > conc:
